@@ -116,7 +116,40 @@ pub fn elem_size(e: Elem) -> usize {
         // (pointer, length); `record rec { a: u32, b: string, c: list<u8> }` is 5 pointers wide
         Elem::Str | Elem::Bytes => 16,
         Elem::Rec => 40,
+        // canonical tuple<u16, u64, u8>: fields at 0, 8, 16
+        Elem::Tup => 24,
+        Elem::Handle => 4,
     }
+}
+
+pub fn tup_of(id: u32) -> (u16, u64, u8) {
+    (id as u16, id as u64 | ((id as u64 ^ 0x5a5a) << 32), (id as u8) ^ 0x5a)
+}
+pub fn id_of_tup(t: (u16, u64, u8)) -> Option<u32> {
+    let id = t.1 as u32;
+    (tup_of(id) == t).then_some(id)
+}
+
+// Own handles of the imported resource `thing` that travel as payloads: the indices the guest
+// owns right now. A value with id `i` is the handle GEN_HANDLE_BASE + i.
+pub const GEN_HANDLE_BASE: u32 = 0x10_0000;
+thread_local! {
+    static GEN_HANDLES: RefCell<std::collections::BTreeSet<u32>> = const { RefCell::new(std::collections::BTreeSet::new()) };
+}
+pub fn gen_handles_reset() {
+    ledger::host(|| GEN_HANDLES.with(|g| *g.borrow_mut() = Default::default()));
+}
+/// The host puts a handle into the guest's table (a payload it writes, or a value the harness makes).
+pub fn gen_handle_give(id: u32) -> u32 {
+    ledger::host(|| GEN_HANDLES.with(|g| g.borrow_mut().insert(GEN_HANDLE_BASE + id)));
+    GEN_HANDLE_BASE + id
+}
+/// The handle leaves the guest's table (transferred in a payload, or dropped by the guest).
+pub fn gen_handle_take(index: u32) -> bool {
+    ledger::host(|| GEN_HANDLES.with(|g| g.borrow_mut().remove(&index)))
+}
+pub fn gen_handles_left() -> Vec<u32> {
+    ledger::host(|| GEN_HANDLES.with(|g| g.borrow().iter().copied().collect()))
 }
 
 // Values of the generated payload types are a function of an id, so that the host can
@@ -199,6 +232,17 @@ pub unsafe fn host_read_elem(e: Elem, p: *const u8) -> Result<u32, String> {
                 let b = read_slice(p, "list<u8>")?;
                 id_of_bytes(b).ok_or_else(|| format!("lowered list<u8> of {} bytes is not a value that was ever sent", b.len()))
             }
+            Elem::Tup => {
+                let t = ((p as *const u16).read(), (p.add(8) as *const u64).read(), *p.add(16));
+                id_of_tup(t).ok_or_else(|| format!("lowered tuple {t:?} is not a value that was ever sent (fields are not at their canonical offsets 0, 8, 16?)"))
+            }
+            Elem::Handle => {
+                let index = (p as *const u32).read();
+                if !gen_handle_take(index) {
+                    return Err(format!("lowered own<thing> handle {index}: the guest does not own that handle (already transferred or dropped)"));
+                }
+                Ok(index.wrapping_sub(GEN_HANDLE_BASE))
+            }
             Elem::Rec => {
                 let id = (p as *const u32).read();
                 let b = read_slice(p.add(8), "record field `b`")?;
@@ -233,6 +277,14 @@ pub unsafe fn host_write_elem(e: Elem, p: *mut u8, id: u32) {
             }
             Elem::Str => write_slice(p, str_of(id).as_bytes()),
             Elem::Bytes => write_slice(p, &bytes_of(id)),
+            Elem::Tup => {
+                let t = tup_of(id);
+                std::ptr::write_bytes(p, 0, 24);
+                (p as *mut u16).write(t.0);
+                (p.add(8) as *mut u64).write(t.1);
+                *p.add(16) = t.2;
+            }
+            Elem::Handle => (p as *mut u32).write(gen_handle_give(id)),
             Elem::Rec => {
                 (p as *mut u64).write(0);
                 (p as *mut u32).write(id);
